@@ -141,7 +141,78 @@ def m3_reads_switch_to_freezer(S):
         S.witness(ctx, ob, f"{short}_reach_frozen", [known.t], frozen_read)
 
 
-OBLIGATIONS = [m1_freeze_threshold, m3_reads_switch_to_freezer]
+def m4_frozen_block_decoding(S):
+    """what the freezer branch of the two readers does with the bytes it got: they are decoded as a block in *compatible* mode (a frozen block may be a BlockV1 whose
+    extension is an extra field; strict decoding would reject it), nothing else is decoded, `get_block` returns the view of that very block, and
+    `get_transaction_with_info` returns the transaction at the recorded index of that block together with the stored info; a freezer miss answers None"""
+    from mir2smt.srcinfo import field_index
+    ob = "C10.m4"
+    ti = field_index("util/types/src/core/extras.rs", "TransactionInfo")
+    for short in ("get_block", "get_transaction_with_info"):
+        f = [x for x in S.prog.funcs if x.kind == "fn" and x.name == "ChainStore::" + short]
+        if len(f) != 1:
+            raise Inconclusive(f"ChainStore::{short}: {len(f)} candidates")
+        ctx = S.ctx()
+        ctx.uninterpreted_unknown_calls = True
+        hit = ctx.bool("freezer_hit")
+        idx = ctx.int(f"txinfo.{ti['index']}", "usize")
+        decodes = []
+        gets = []
+
+        def nmv(ex, v):
+            v = deref(ex, v)
+            return getattr(v, "name", None) or type(v).__name__
+
+        def decode(ex, c, a, d, decodes=decodes):
+            mode = re.sub(r"::<[^<>]*>$", "", c).split("::")[-1]
+            decodes.append((mode, c, nmv(ex, a[0]), list(ex.pc)))
+            return mk_result(True, OpaqueV("reader(" + nmv(ex, a[0]) + ")", "BlockReader"), OpaqueV("verr", "VerificationError"), d)
+
+        def tx_get(ex, c, a, d, gets=gets):
+            gets.append((nmv(ex, a[0]), deref(ex, a[1]).t, list(ex.pc)))
+            return mk_option(ex.ctx.bool("index_in_range").t, OpaqueV("tx_of(" + nmv(ex, a[0]) + ")", "TransactionReader"), d)
+        nm1 = lambda tag: (lambda ex, c, a, d: OpaqueV(tag + "(" + nmv(ex, a[0]) + ")", d))
+        ctx.env = list(E.LOGGING_OFF) + [
+            (E.rx(r"ChainStore>::freezer$"), lambda ex, c, a, d: mk_option(True, ex.ctx.ref_to(OpaqueV("freezer", "Freezer")), d)),
+            (E.rx(r"Freezer::number$"), lambda ex, c, a, d: IntV(1 << 40, "u64")),
+            (E.rx(r"Freezer::retrieve$"), lambda ex, c, a, d: mk_result(True, mk_option(hit.t, OpaqueV("raw", "Vec<u8>"), "Option<Vec<u8>>"), OpaqueV("ferr", "Error"), d)),
+            (E.rx(r"ChainStore>::get_block_header$"), lambda ex, c, a, d: mk_option(True, OpaqueV("header", "HeaderView"), d)),
+            (E.rx(r"ChainStore>::get_transaction_info$"), lambda ex, c, a, d: mk_option(True, AggV(tuple(ex.ctx.fresh_of_type(f"txinfo.{k}", "usize" if k == ti["index"] else "u64") if k in (ti["index"], ti["block_number"]) else OpaqueV(f"txinfo.{k}", "?") for k in range(len(ti))), "TransactionInfo"), d)),
+            (E.rx(r"HeaderView::number$"), lambda ex, c, a, d: IntV(7, "u64")),
+            (E.rx(r"Reader(::<'_>)?(<'_>)?::(from_compatible_slice|from_slice|new_unchecked|from_slice_should_be_ok)$|as Reader<'_>>::(from_compatible_slice|from_slice|new_unchecked)$"), decode),
+            (E.rx(r"as Deref>::deref$|::as_slice$|::as_ref$"), lambda ex, c, a, d: OpaqueV(nmv(ex, a[0]), d)),
+            (E.rx(r"BlockReader(::<'_>)?(<'_>)?::transactions$"), nm1("txs")),
+            (E.rx(r"TransactionVecReader(::<'_>)?(<'_>)?::get$"), tx_get),
+            (E.rx(r"::to_entity$"), nm1("entity")),
+            (E.rx(r"::into_view$"), nm1("view")),
+        ]
+        ps = S.run(ctx, f[0], [ctx.ref_to(OpaqueV("store", "Self")), ctx.ref_to(OpaqueV("hash", "Byte32"))])
+        pre = [T.eq(T.var(f"txinfo.{ti['block_number']}"), 7)] if short != "get_block" else []
+        S.prove(ctx, ob, f"{short}_frozen_branch_does_not_panic", pre, T.not_(cond_of(panics(ps))))
+        blockdec = [x for x in decodes if "BlockReader" in x[1] or x[2] == "raw"]
+        S.prove(ctx, ob, f"{short}_frozen_bytes_are_decoded_as_a_block_in_compatible_mode", [], bool(blockdec and all(m == "from_compatible_slice" and "BlockReader" in c and src == "raw" for m, c, src, _ in blockdec)),
+                extra={"note": str([(m, c, src) for m, c, src, _ in decodes])})
+        rs = returns(ps)
+        hits = [p for p in rs if isinstance(p.value, EnumV) and p.value.disc == 1]
+        misses = [p for p in rs if isinstance(p.value, EnumV) and p.value.disc == 0]
+        miss_cond = T.or_(*[p.cond() for p in misses]) if misses else False
+        if short == "get_block":
+            names = [nmv(None, p.value.payload(1)[0]) for p in hits]
+            S.prove(ctx, ob, "get_block_returns_the_view_of_the_decoded_frozen_block", [], bool(names and all(n == "view(entity(reader(raw)))" for n in names)), extra={"note": str(names)})
+            S.prove(ctx, ob, "get_block_answers_none_iff_the_freezer_misses", pre, T.iff(miss_cond, T.not_(hit.t)))
+        else:
+            ok = []
+            for p in hits:
+                tup = p.value.payload(1)[0]
+                ok.append(isinstance(tup, AggV) and len(tup.fields) == 2 and nmv(None, tup.fields[0]) == "view(entity(tx_of(txs(reader(raw)))))" and isinstance(tup.fields[1], AggV)
+                          and [getattr(x, "name", None) or str(getattr(x, "t", "")) for x in tup.fields[1].fields] == [f"txinfo.{k}" for k in range(len(ti))])
+            S.prove(ctx, ob, "get_transaction_with_info_returns_the_indexed_transaction_of_the_frozen_block_and_the_stored_info", [], bool(ok and all(ok)), extra={"note": str(ok)})
+            S.prove(ctx, ob, "get_transaction_with_info_asks_for_the_recorded_index", pre, bool(gets) and T.and_(*[T.implies(T.and_(*pc), T.eq(i, idx.t)) for _, i, pc in gets]))
+            S.prove(ctx, ob, "get_transaction_with_info_none_iff_miss_or_index_out_of_range", pre, T.iff(miss_cond, T.or_(T.not_(hit.t), T.not_(ctx.bool("index_in_range").t))))
+        S.witness(ctx, ob, f"{short}_reach_hit", pre, T.or_(*[p.cond() for p in hits]) if hits else False)
+
+
+OBLIGATIONS = [m1_freeze_threshold, m3_reads_switch_to_freezer, m4_frozen_block_decoding]
 
 ENGINE = "M"
 LEVEL = "other"
